@@ -875,6 +875,29 @@ def install(E):
         return It('list', extra=([(some, payload(E, o, 1, 0, None, mem))], 0))
     reg(r'^<(?:std::option::)?Option<.*> as IntoIterator>::into_iter$', h_option_into_iter)
 
+    def h_box_new_uninit(E, m, func, argv, guard, mem, dty, caller):
+        """Box::<[T; N]>::new_uninit(): the allocation `vec![a, b, ..]` expands to. A heap cell holding an arbitrary
+        (uninitialised) MaybeUninit value; the box is Box { 0: Unique { 0: <pointer to the cell> } }."""
+        c = E.new_cell()
+        mem[c] = Adt('MaybeUninit', {}, base='uninit!%d' % next(E.nfresh))
+        E.box_cells = getattr(E, 'box_cells', set())
+        E.box_cells.add(c)
+        return Adt('Box', {0: Adt('Unique', {0: Ref(c)})})
+    reg(r'Box::<\[.*; \d+\]>::new_uninit$', h_box_new_uninit)
+
+    def h_box_into_vec(E, m, func, argv, guard, mem, dty, caller):
+        """box_assume_init_into_vec_unsafe::<T, N>(Box<MaybeUninit<[T; N]>>): the vector of the N array elements"""
+        b = argv[0]
+        r = b.fs.get(0) if isinstance(b, Adt) else None
+        r = r.fs.get(0) if isinstance(r, Adt) else None
+        if not isinstance(r, Ref) or r.cell not in getattr(E, 'box_cells', ()):
+            return NotImplemented
+        arr = E.read_path(mem[r.cell], r.path + (('f', 1, '?'), ('f', 0, '?'), ('f', 0, '?')), mem, guard, 'vec literal')
+        if not isinstance(arr, Tup):
+            return NotImplemented
+        return Seq(list(arr.fs), len(arr.fs), None)
+    reg(r'box_assume_init_into_vec_unsafe::<', h_box_into_vec)
+
     def h_option_iter(E, m, func, argv, guard, mem, dty, caller):
         """Option::<T>::iter(&self): at most one item, a reference into the option's own storage"""
         r = argv[0]
